@@ -187,6 +187,7 @@ type sim struct {
 	c04View        [2]uint64
 	altUsed        bool
 	hasAlt         int
+	inConc         bool
 	fOnly          bool   // C06: after the first vote op only members of fMask sign, macro rounds are skipped
 	fPhase         bool
 	fMask          uint32 // sanitized: power(fMask) < 1/3 of every set's total
